@@ -144,6 +144,19 @@ def _run_conv(desc):
         for nm, m in masks.items():
             if not (m[safe] == expect).all():
                 bad("dtyimask_from_%s:wrong" % nm, {"offset": off, "n_wrong": int((m[safe] != expect).sum())})
+    # integer versions are the composition of the float version and the binning
+    for nm, got_, want_ in (("step_omega_to_dtyi", G.step_omega_to_dtyi(si_, sj_, om, y0, ystep, ymin), G.dty_to_dtyi(G.step_omega_to_dty(si_, sj_, om, y0, ystep), ystep, ymin)),
+                            ("recon_omega_to_dtyi", G.recon_omega_to_dtyi(ri, rj, om, y0, shape, ystep, ymin),
+                             G.dty_to_dtyi(G.recon_omega_to_dty(ri, rj, om, y0, shape, ystep), ystep, ymin))):
+        if not np.array_equal(got_[safe], want_[safe]) or not np.array_equal(want_[safe], dtyi[safe]):
+            bad(nm + ":differs-from-binning-the-float-value")
+    # the inverse by fitting: the (omega, dty) curve of a point gives back the point and the axis offset
+    om_fit = np.arange(0.0, 360.0, 7.5)
+    for px, py in ((2.0 * ystep, -3.5 * ystep), (-9.0 * ystep, 6.25 * ystep), (0.25 * ystep, 12.0 * ystep)):
+        d_fit = G.dty_values_grain_in_beam(px, py, y0, om_fit)
+        fx, fy, fy0 = G.sx_sy_y0_from_dty_omega(d_fit, om_fit)
+        if max(abs(fx - px), abs(fy - py), abs(fy0 - y0)) > 1e-4 * ystep:
+            bad("sx_sy_y0_from_dty_omega:does-not-recover-the-point", {"point": [px, py], "y0": y0, "fit": [float(fx), float(fy), float(fy0)]})
     # the point-by-point copy of the in-beam condition (numba get_voxel_idx): for one sample point and a table of (omega, dty) peaks, the
     # distance it reports is |dty - dty that brings the point into the beam| and it selects the peaks within one step
     from ImageD11.sinograms import point_by_point as PBP
@@ -222,6 +235,15 @@ def _run_recon(desc):
                             sh.violation("reconstruction-not-where-geometry-predicts", case, {"predicted": [float(ri), float(rj)], "found": [ci, cj],
                                                                                              "error_px": err, "recon_shape": list(rec.shape)})
                         sh.counters["max_centroid_error_milli_px"] = max(sh.counters.get("max_centroid_error_milli_px", 0), int(err * 1000))
+                        if extra == 0 and rng_name == "0-180":
+                            # the module's own locator (blob search on the image, then recon -> sample): whole-pixel resolution, so a
+                            # looser bound; what it guards is the conversion back to sample coordinates
+                            fp = G.fit_sample_position_from_recon(rec, ystep)
+                            if fp is not None:
+                                ferr = float(np.hypot(fp[0] - sx, fp[1] - sy)) / ystep
+                                sh.counters["max_fit_position_error_milli_px"] = max(sh.counters.get("max_fit_position_error_milli_px", 0), int(ferr * 1000))
+                                if ferr > 2.5:
+                                    sh.violation("fit_sample_position_from_recon:far-from-the-grain", case, {"found": [float(fp[0]), float(fp[1])], "error_px": ferr})
                         sh.evaluations += 1
                         if y0 != 0 or ny % 2 == 0 or (px, py) != (0.0, 0.0):
                             sh.nontrivial += 1
